@@ -212,3 +212,14 @@ M('c20-preflight-on-status-below-400', 'C20', 'R4', MW, _PREFLIGHT,
   "        if (\n            resp.status_code < 400\n            and req.method == 'OPTIONS'\n")
 M('c20-preflight-success-flag-or-ok-status', 'C20', 'R4', MW, _PREFLIGHT,
   "        if (\n            (req_succeeded or 200 <= resp.status_code <= 299)\n            and req.method == 'OPTIONS'\n")
+
+# ---- auto-mutation seed sa-am00072 (R4): the duplicate-CORS refusal applies only under cors_enable
+_DUP_GUARD_HEAD = """            if (
+                self._cors_enable
+                and len(
+"""
+M('c20-duplicate-refusal-unconditional', 'C20', 'R4', 'falcon/app.py', _DUP_GUARD_HEAD, "            if (\n                len(\n")
+M('c20-duplicate-refusal-flag-or', 'C20', 'R4', 'falcon/app.py', _DUP_GUARD_HEAD,
+  "            if (\n                self._cors_enable\n                or len(\n")
+M('c20-duplicate-refusal-flag-negated', 'C20', 'R4', 'falcon/app.py', _DUP_GUARD_HEAD,
+  "            if (\n                not self._cors_enable\n                and len(\n")
